@@ -364,8 +364,13 @@ def str_eq_tests(body):
     """`x == "LIT"` tests: list of (literal, call, true_target, false_target)"""
     out = []
     for c in body.calls:
-        if 'PartialEq' in (c.trait or '') and c.item in ('eq', 'ne') and re.search(r'\bstr\b|String', c.name):
-            lits = [a['v'] for a in c.args if a['k'] == 'const']
+        if 'PartialEq' in (c.trait or '') and c.item in ('eq', 'ne') and (re.search(r'\bstr\b|String', c.name) or any(re.fullmatch(r"&?('\w+ )?(str|std::string::String)", g) for g in c.gargs)):
+            lits = []
+            for a in c.args:
+                if a['k'] == 'const' and a['v'].startswith('"'): lits.append(a['v'])
+                elif a['k'] in ('copy', 'move'):
+                    e = strip_wrappers(expr(body, a, depth=6))
+                    if e[0] == 'const' and e[1].startswith('"'): lits.append(e[1])
             if not lits: continue
             for g in guards_from_call(body, c):
                 t, f = g.true_bb, g.false_bb
@@ -504,7 +509,15 @@ def expr(body, operand, depth=18):
     (SSA-like temporaries).  Nodes:
        ('const', text) | ('place', root_local, [(adt, field)...]) | ('bin', op, a, b) | ('un', op, a)
        | ('cast', to, a) | ('call', item, name, [args]) | ('agg', adt, [ops]) | ('local', l)"""
-    if operand['k'] == 'const': return ('const', operand['v'])
+    if operand['k'] == 'const':
+        v = operand['v']
+        m = re.search(r'::promoted\[(\d+)\]$', v)
+        F = getattr(body, 'facts', None)
+        if m and F is not None:
+            pb = F.bodies.get(v) or F.bodies.get('%s::promoted[%s]' % (body.name, m.group(1)))
+            if pb is not None and depth > 0:
+                return expr(pb, {'k': 'copy', 'pl': {'l': 0, 'p': []}}, depth - 1)
+        return ('const', v)
     if operand['k'] not in ('copy', 'move'): return ('local', -1)
     pl = operand['pl']
     fs = fields_of_place(pl)
